@@ -1,6 +1,6 @@
 (** TextCutDefs: the string-level driver model of Compose/TextCut.v (executable, NO proofs): read_fragments from the block
     text - DriverModel.read_fragments_with over the strip component's strip_bonding_descriptors, its pysmiles parser model
-    and FINAL template (TemplateFinal.final_assemble as a networkx graph, TemplateGraph.tmpl_graph) in the all-atom branch,
+    and FINAL template (TemplateFinal.final_assemble as a networkx graph, [tgraph] = TemplateGraph.tmpl_graph) in the all-atom branch,
     Write/FragRead.read_fragment_cgsmiles in the coarse branch, `if fragname not in fragment_dict` as insertion
     (Stereo/EzStrings.fd_add) -, MoleculeResolver.from_string over it and the Reader's read_cgsmiles, and the first resolve()
     up to the bonding step.  Compared with the implementation on every generated string of ./check C01
@@ -8,18 +8,28 @@
 From Coq Require Import String.
 From Coq Require Import List Ascii ZArith Bool.
 From CGV Require Import Base.PyBase Base.PyVal Base.NxGraph Dialect.DialectImpl.
-From CGV Require Import Frag.NDict Frag.StripImpl Frag.SmilesParse Frag.Template Frag.TemplateFinal Frag.TemplateGraph.
+From CGV Require Import Frag.NDict Frag.StripImpl Frag.SmilesParse Frag.Template Frag.TemplateFinal.
 From CGV Require Reader.ReaderImpl Stereo.EzStrings Write.FragRead.
 From CGV Require Import Resolve.Bonding Resolve.GraphOps Resolve.Pipeline Dialect.DriverModel.
 Import ListNotations.
 Open Scope Z_scope.
+
+(** the template as a networkx graph: nodes 0..n-1 in order, adjacency of a node = its bonds in creation order.  A copy of
+    Frag/TemplateGraph.tmpl_graph (a file with proofs; TextCut.tgraph_eq: the two are the same function), so that this
+    file and the per-run check depend on model files only *)
+Definition tg_adj (i : nat) (E : list (nat * nat * pyval)) : list (Z * attrs) :=
+  flat_map (fun e => let '(u, v, o) := e in
+                     if Nat.eqb u i then [(Z.of_nat v, [(S "order", o)])] else if Nat.eqb v i then [(Z.of_nat u, [(S "order", o)])] else []) E.
+Definition tgraph (T : tmpl) : graph :=
+  map (fun ia : nat * attrs => {| nk := Z.of_nat (fst ia); na := snd ia; nadj := tg_adj (fst ia) (t_edges T) |})
+      (combine (seq 0 (length (t_nodes T))) (t_nodes T)).
 
 Definition mk_text (fo : float_oracle) (aa : bool) (name : pystr) (r : StripImpl.result) : res graph :=
   let '(clean, d, ez, a) := r in
   if aa then
     G <- smiles_parse (if str_eqb clean (S "H") then S "[H]" else clean) ;;
     T <- final_assemble name G d ez a ;;
-    Ok (tmpl_graph T)
+    Ok (tgraph T)
   else FragRead.read_fragment_cgsmiles fo clean name d a.
 Definition read_fragments_text (fo : float_oracle) : pystr -> bool -> res fragdict :=
   read_fragments_with fo (mk_text fo) EzStrings.fd_add.
